@@ -476,10 +476,17 @@ def gen_case(rng, i: int, keys: List[Tuple[str, str]], real_fallback: bool) -> D
     c["raise_cls"] = rng.choice(RAISE_CLS)
     c["code"] = rng.randrange(0, 5)
     c["fallback"] = "real" if real_fallback else "stub"
+    if not pyproject and not c.get("early") and rng.random() < 0.10:
+        c["rel_loads"] = [["c13rel_%d_%d" % (i, j), rng.choice(["c13local_%d.py" % i, "c13pkg_%d/inner.py" % i]),
+                           rng.choice(["spec", "imp"])] for j in range(rng.choice([1, 2]))]
+        # relative paths are resolved through os.path.abspath / os.getcwd when the purge runs: a script that also
+        # overwrites those with non-callables makes the loop raise half-way (not modelled)
+        c["ops"] = [o for o in c["ops"] if not (o[0] in ("W", "D", "M") and (o[1], o[2]) in (("os.path", "abspath"), ("os", "getcwd")))]
     tracked = ["builtins", "__builtin__", "urllib.request", "importlib.util", "numpy", "Cython", "Cython.Build",
                "c13host_%d" % i, "c13local_%d" % i, "c13pkg_%d" % i, "c13pkg_%d.inner" % i, "c13backend_%d" % i]
     tracked += list(tr_info_fakes())
     tracked += [o[1] for o in c["ops"] if o[0] in ("I", "R")]
+    tracked += [r[0] for r in c.get("rel_loads", [])]
     c["tracked_mods"] = sorted(set(tracked))
     return c
 
@@ -511,6 +518,9 @@ def prog_tokens(case: Dict[str, Any], root: str) -> str:
         if name.startswith("c13pkg_"):
             ops += ["I", hx(name + ".inner"), "J"]
             n += 1
+    for r in case.get("rel_loads", []) if not pyproject else []:
+        ops += ["I", hx(r[0]), "R"]
+        n += 1
     for o in case["ops"]:
         t = o[0]
         n += 1
@@ -537,10 +547,10 @@ def prog_tokens(case: Dict[str, Any], root: str) -> str:
 def effective_program(case: Dict[str, Any]) -> Dict[str, Any]:
     """What of the script is actually executed (early returns / missing setup.py run nothing)."""
     if case.get("early"):
-        return {**case, "ops": [], "imports": [], "ending": "finish", "fops": []}
+        return {**case, "ops": [], "imports": [], "ending": "finish", "fops": [], "rel_loads": []}
     if case.get("ending") == "unreadable" and case["kind"] == "setup":
         # nothing of the script runs (the model drops the ops itself: eff_ops); no file operations either
-        return {**case, "fops": [], "imports": []}
+        return {**case, "fops": [], "imports": [], "rel_loads": []}
     if case.get("init", {}).get("cython") == "noattr" and case["kind"] == "setup":
         # `old_cythonize = Cython.Build.cythonize` raises before the script is read: nothing of it runs
         # (the model decides that itself for the process state; the file operations are listed here)
@@ -597,6 +607,7 @@ def run_workers(ctx: Ctx, keys: List[Tuple[str, str]], cases: List[Dict[str, Any
     env["REQ_COMPILE_WHEEL_TIMEOUT"] = "30"
     env["PIP_NO_INDEX"] = "1"
     env["PYTHONDONTWRITEBYTECODE"] = "1"
+    env["TMPDIR"] = str(tmp)      # the fall-back's private copies live (and are cleaned up) with the run, same file system
     serial = [0]
 
     def launch(chunk: List[Dict[str, Any]]):
@@ -656,7 +667,8 @@ def run_workers(ctx: Ctx, keys: List[Tuple[str, str]], cases: List[Dict[str, Any
     return results
 
 
-def compare_case(ctx: Ctx, case: Dict[str, Any], rec: Dict[str, Any], ans: str, fans: str, where: str = "analyser-state") -> bool:
+def compare_case(ctx: Ctx, case: Dict[str, Any], rec: Dict[str, Any], ans: str, fans: str, where: str = "analyser-state",
+                 gans: str = "-") -> bool:
     """True when implementation and model agree on this case."""
     ok = True
     if rec.get("worker_error"):
@@ -677,7 +689,13 @@ def compare_case(ctx: Ctx, case: Dict[str, Any], rec: Dict[str, Any], ans: str, 
     if want != rec["listing1"]:
         ctx.mismatch("cwd-listing", case, rec["listing1"], want)
         ok = False
-    predicted_same = (not rec["cwd_in_project"]) or want == rec["listing0"]
+    model_diff = [] if gans.strip() in ("-", "") else sorted(common.unhx(t) for t in gans.split())
+    if case.get("real_fops") is not None:
+        # the fall-back really ran the script in its private copy: per-file digest census of the project
+        if model_diff != rec.get("project_diff", []):
+            ctx.mismatch("fallback-project-files", case, rec.get("project_diff"), model_diff)
+            ok = False
+    predicted_same = ((not rec["cwd_in_project"]) or want == rec["listing0"]) and not model_diff
     if predicted_same != rec["project_same"]:
         ctx.mismatch("project-tree", case, {"project_same": rec["project_same"]}, {"project_same": predicted_same})
         ok = False
@@ -704,12 +722,17 @@ def correspondence_analyser(ctx: Ctx, extra_cases: List[Dict[str, Any]]) -> None
     n = ctx.n(260, 6000)
     n_real = ctx.n(5, 60)
     cases = [gen_case(rng, i, keys, real_fallback=(i < n_real)) for i in range(n)]
+    n_fb = ctx.n(4, 40)
+    for j in range(n_fb):
+        # the egg-info fall-back really runs the script in its private copy and the script writes files there
+        k = n_real + j
+        cases[k] = fill_tracked(with_real_fops(rng, dict(cases[k], packaging=["dir", "dir", "tgz", "zip"][j % 4])))
     for j, c in enumerate(extra_cases):
         c = dict(c)
         c["id"] = n + j
         cases.append(normalise_ids(c, n + j))
     recs = run_workers(ctx, keys, cases, nworkers=ctx.n(4, 8))
-    lines, flines, order = [], [], []
+    lines, flines, glines, order = [], [], [], []
     for c in cases:
         r = recs.get(c["id"])
         if r is None:
@@ -720,15 +743,17 @@ def correspondence_analyser(ctx: Ctx, extra_cases: List[Dict[str, Any]]) -> None
             continue
         lines.append(model_line(c, r))
         flines.append(fops_line(c, r) if not r.get("dead") else "F 0 0")
+        glines.append(fallback_line(c, r) if (c.get("real_fops") is not None and not r.get("dead")) else "G 0 0")
         order.append((c, r))
     answers = run_model("C13", lines) if lines else []
     fanswers = run_model("C13", flines) if flines else []
+    ganswers = run_model("C13", glines) if glines else []
     if len(answers) != len(lines) or len(fanswers) != len(flines):
         ctx.obligation_broken("model-runner:C13", f"{len(answers)} answers for {len(lines)} cases")
         return
     agreeing = []
     disagreeing = []
-    for (c, r), ans, fans, line in zip(order, answers, fanswers, lines):
+    for (c, r), ans, fans, gans, line in zip(order, answers, fanswers, ganswers, lines):
         eff = effective_program(c)
         ctx.count("b:kind:" + c["kind"])
         ctx.count("b:packaging:" + c["packaging"])
@@ -738,6 +763,10 @@ def correspondence_analyser(ctx: Ctx, extra_cases: List[Dict[str, Any]]) -> None
             ctx.count("b:early:" + c["early"])
         if c["fallback"] == "real":
             ctx.count("b:real-fallback")
+        if c.get("real_fops") is not None and str(r.get("outcome", "")).startswith("ok:"):
+            ctx.count("b:fallback-really-ran-the-script")
+        if c.get("rel_loads"):
+            ctx.count("b:relative-path-module-loads")
         if r.get("dt", 0) > 5:
             ctx.notes.append("slow case %d (%.1fs, fallback=%s, ending=%s)" % (c["id"], r["dt"], c["fallback"], eff["ending"]))
         if r.get("dead"):
@@ -750,7 +779,7 @@ def correspondence_analyser(ctx: Ctx, extra_cases: List[Dict[str, Any]]) -> None
         if ctx.evaluations % 97 == 3:
             sample = {"kind": "analysis", "case": {k: v for k, v in c.items() if k != "tracked_mods"},
                       "impl_outcome": r.get("outcome"), "agree": None}
-        ok = compare_case(ctx, c, r, ans, fans)
+        ok = compare_case(ctx, c, r, ans, fans, gans=gans)
         if sample is not None:
             sample["agree"] = ok
         ctx.case(key=("b", case_key(c)), nontrivial=nontrivial_case(c), sample=sample)
@@ -777,6 +806,41 @@ def normalise_ids(c: Dict[str, Any], new_id: int) -> Dict[str, Any]:
     return fill_tracked(d)
 
 
+def with_real_fops(rng, c: Dict[str, Any]) -> Dict[str, Any]:
+    """A case whose in-process analysis fails, so that the egg-info fall-back REALLY runs the script in its private
+    copy, where it rewrites / appends to / replaces / removes / creates files."""
+    i = c["id"]
+    pool = ["README", "sub/data.txt", "c13local_%d.py" % i, "c13pkg_%d/inner.py" % i, "c13new_%d.txt" % i]
+    fops = []
+    for _ in range(rng.randrange(1, 4)):
+        k = rng.choice(["w", "w", "a", "x", "u"])
+        fops.append([k, rng.choice(pool)] + ([rng.randrange(1, 99)] if k != "u" else []))
+    c = dict(c)
+    c.update({"kind": "setup", "fallback": "real", "ending": "raise", "raise_cls": "RuntimeError", "setup_at": None,
+              "real_fops": fops, "fops": []})
+    c.pop("early", None)
+    c.pop("rel_loads", None)
+    c["init"] = {k: v for k, v in c["init"].items() if k not in ("cython",)}
+    if c["packaging"] not in ("dir", "tgz", "zip"):
+        c["packaging"] = "dir"
+    return c
+
+
+def fallback_line(case: Dict[str, Any], rec: Dict[str, Any]) -> str:
+    files = rec.get("project_files", []) if case["packaging"] == "dir" else []
+    toks = ["G", str(len(files))] + [hx(f) for f in files]
+    ops = case.get("real_fops") or [] if case["packaging"] == "dir" else []
+    toks.append(str(len(ops)))
+    for f in ops:
+        if f[0] in ("w", "a"):
+            toks += ["w", hx(f[1]), str(f[2])]
+        elif f[0] == "x":
+            toks += ["x", hx(f[1]), str(f[2])]
+        else:
+            toks += ["u", hx(f[1])]
+    return " ".join(toks)
+
+
 def fill_tracked(c: Dict[str, Any]) -> Dict[str, Any]:
     i = c["id"]
     tracked = set(c.get("tracked_mods", [])) | {
@@ -785,6 +849,7 @@ def fill_tracked(c: Dict[str, Any]) -> Dict[str, Any]:
     tracked |= set(tr_info_fakes())
     tracked |= {o[1] for o in c.get("ops", []) if o[0] in ("I", "R")}
     tracked |= {n for n, _ in c.get("init", {}).get("host_mods", [])}
+    tracked |= {r[0] for r in c.get("rel_loads", [])}
     c["tracked_mods"] = sorted(tracked)
     return c
 
@@ -822,7 +887,7 @@ def coq_state(init_line: str) -> Tuple[str, List[Tuple[str, str]]]:
     mods = []
     for _ in range(int(nxt())):
         n_, k = common.unhx(nxt()), nxt()
-        mods.append("(%s, %s)" % (coq_str(n_), {"P": "KPlain", "F": "KFake", "J": "KProj"}[k]))
+        mods.append("(%s, %s)" % (coq_str(n_), {"P": "KPlain", "F": "KFake", "J": "KProj", "R": "KRel"}[k]))
     st = "(mkSt [%s] %s %s [%s] [%s] [%s] [])" % ("; ".join(attrs), coq_str(cwd), coq_str(cwd), "; ".join(coq_str(p) for p in path),
                                                    "; ".join(m + "%N" for m in meta), "; ".join(mods))
     return st, keys
@@ -854,7 +919,7 @@ def coq_prog(case: Dict[str, Any], root: str) -> str:
             ops.append("OChdir %s" % coq_str(common.unhx(nxt())))
         elif t == "I":
             nm = coq_str(common.unhx(nxt()))
-            ops.append("OModIns %s %s" % (nm, {"P": "KPlain", "F": "KFake", "J": "KProj"}[nxt()]))
+            ops.append("OModIns %s %s" % (nm, {"P": "KPlain", "F": "KFake", "J": "KProj", "R": "KRel"}[nxt()]))
         elif t == "R":
             ops.append("OModDel %s" % coq_str(common.unhx(nxt())))
         elif t == "S":
@@ -880,7 +945,7 @@ Definition unfake (o : option value) : option value := match o with Some (VFake 
 Fixpoint l_eqb {A} (e : A -> A -> bool) (a b : list A) : bool :=
   match a, b with [] , [] => true | x :: r, y :: q => e x y && l_eqb e r q | _, _ => false end.
 Definition kind_eqb (a b : mkind) : bool :=
-  match a, b with KPlain, KPlain | KFake, KFake | KProj, KProj => true | _, _ => false end.
+  match a, b with KPlain, KPlain | KFake, KFake | KProj, KProj | KRel, KRel => true | _, _ => false end.
 Definition msub (a b : mmap) : bool :=
   forallb (fun x => existsb (fun y => String.eqb (fst x) (fst y) && kind_eqb (snd x) (snd y)) b) a.
 Definition agrees (r : result) (s0 : st) (keys : list key) (ev : list (option value)) (ecwd : string)
@@ -908,7 +973,7 @@ def coq_recheck(ctx: Ctx, sample: List[Tuple[Dict[str, Any], Dict[str, Any], Opt
         ecwd = coq_str(common.unhx(parts[1].strip()))
         epath = "; ".join(coq_str(common.unhx(t)) for t in parts[2].split())
         emeta = "; ".join(t + "%N" for t in parts[3].split())
-        emods = "; ".join("(%s, %s)" % (coq_str(common.unhx(t.split(":")[0])), {"P": "KPlain", "F": "KFake", "J": "KProj"}[t.split(":")[1]])
+        emods = "; ".join("(%s, %s)" % (coq_str(common.unhx(t.split(":")[0])), {"P": "KPlain", "F": "KFake", "J": "KProj", "R": "KRel"}[t.split(":")[1]])
                           for t in (parts[4].split() if len(parts) > 4 else []))
         ec = "; ".join(("0" if t == "-" else t) + "%N" for t in (parts[5].split() if len(parts) > 5 else []))
         kl = "; ".join("(%s, %s)" % (coq_str(m), coq_str(a)) for m, a in keys)
@@ -1152,6 +1217,24 @@ def search(ctx: Ctx) -> Optional[Dict[str, Any]]:
                   "init": {"captured": True, "host_mods": [], "cwd_in_project": False}, "imports": [], "fops": [],
                   "ops": [], "setup_at": 0, "ending": "unreadable"})
         c.pop("early", None)
+        directed.append(c)
+        i += 1
+    for pk in ("dir", "tgz", "zip"):
+        for how in ("spec", "imp"):
+            c = gen_case(rng, i, keys, real_fallback=False)
+            c.update({"kind": "setup", "packaging": pk, "name": "c13p%d" % i,
+                      "init": {"captured": True, "host_mods": [], "cwd_in_project": False}, "imports": [], "fops": [],
+                      "ops": [], "setup_at": 0, "ending": "finish",
+                      "rel_loads": [["c13rel_%d_0" % i, "c13pkg_%d/inner.py" % i, how]]})
+            c.pop("early", None)
+            directed.append(c)
+            i += 1
+    for pk, fop in (("dir", ["w", "README", 7]), ("dir", ["a", "sub/data.txt", 8]), ("tgz", ["w", "README", 7]), ("zip", ["w", "README", 7])):
+        c = gen_case(rng, i, keys, real_fallback=False)
+        c.update({"packaging": pk, "name": "c13p%d" % i, "init": {"captured": True, "host_mods": [], "cwd_in_project": False},
+                  "imports": [], "ops": []})
+        c = with_real_fops(rng, c)
+        c["real_fops"] = [fop]
         directed.append(c)
         i += 1
     for pk in ("dir", "tgz", "zip"):
